@@ -1383,6 +1383,8 @@ class Unit:
                 kth, pat = int(m.group(1)), m.group(2)
                 bo, bc = parts["body"]
                 occ = find_token_seq(src, bo + 1, bc, pat)
+                if len(occ) > 1:
+                    self.report.setdefault("order_sensitive_anchors", []).append("%s: //@%s %s -- pattern occurs %d times in the function" % (label, name, arg, len(occ)))
                 if kth > len(occ):
                     raise ExtractError("lost anchor: token sequence `%s` #%d not found in %s" % (pat, kth, label))
                 k0 = occ[kth - 1][0]
@@ -1446,6 +1448,8 @@ class Unit:
                 kth, pat = int(m.group(1)), m.group(2)
                 bo, bc = parts["body"]
                 occ = find_token_seq(src, bo + 1, bc, pat)
+                if len(occ) > 1:
+                    self.report.setdefault("order_sensitive_anchors", []).append("%s: //@%s %s -- pattern occurs %d times in the function" % (label, name, arg, len(occ)))
                 if kth > len(occ):
                     raise ExtractError("lost anchor: token sequence `%s` #%d not found in %s" % (pat, kth, label))
                 x = occ[kth - 1][1] + 1
@@ -1486,6 +1490,8 @@ class Unit:
                 kth, pat = int(m.group(1)), m.group(2)
                 bo, bc = parts["body"]
                 occ = find_token_seq(src, bo + 1, bc, pat)
+                if len(occ) > 1:
+                    self.report.setdefault("order_sensitive_anchors", []).append("%s: //@%s %s -- pattern occurs %d times in the function" % (label, name, arg, len(occ)))
                 if kth > len(occ):
                     raise ExtractError("lost anchor: token sequence `%s` #%d not found in %s" % (pat, kth, label))
                 s0, e, tail = enclosing_stmt(src, bo + 1, bc, occ[kth - 1][0])
